@@ -861,6 +861,16 @@ func genSVGDoc(r *core.Rand) string {
 			}
 			switch a {
 			case "fill", "stroke":
+				if r.Chance(1, 4) {
+					// every colour keyword, and the hex value of every keyword
+					name := cssColorNames[r.Intn(len(cssColorNames))]
+					v := name
+					if r.Bool() {
+						v = "#" + cssNamedColors[name]
+					}
+					fmt.Fprintf(&b, " %s=\"%s\"", a, v)
+					continue
+				}
 				fmt.Fprintf(&b, " %s=\"%s\"", a, r.Pick([]string{"red", "#ff0000", "#FF0000", "#f00", "none", "url(#g1)", "currentColor", "#abcdef", "gold", "#ffd700", "black", "#000000", "rgb(1,2,3)", "lightslateblue", "#ff00007f", "#ffffff0f", "#f008", "#ff0000ff", "#abcdef5f", "#0000", "#FFD700EF", "#fffaf0", "#FFFAFA"}))
 			case "stroke-width":
 				fmt.Fprintf(&b, " stroke-width=\"%s%s\"", genPathNumber(r, true), r.Pick([]string{"", "px", "PX", "em", "%", "mm", "pt", "pc", "in", "cm", "ex", "PT"}))
